@@ -77,3 +77,15 @@ HARNESSES.update({
     'k_efi_iter_provided_methods': dict(MB2, file='memory_map.rs', kind='bounded', bound='descriptor size 40, 0..=3 descriptors, nth(0..=4), count, skip, last',
         functions=['EFIMemoryAreaIter (Iterator provided methods vs next)'], props=['C18', 'C01']),
 })
+
+HDR = dict(crate='multiboot2-header', features=None)
+HARNESSES.update({
+    'k_efi_iter_len_wide_stride': dict(MB2, file='memory_map.rs', kind='bounded', bound='descriptor size 48 or 56, 0..=6 descriptors; len() and addresses only',
+        functions=['EFIMemoryAreaIter::len', 'next'], props=['C18']),
+    'k_elf_iter_provided_methods': dict(ELF, kind='bounded', bound='three 64-byte entries, all bytes symbolic; nth(0..=3), count, skip, last',
+        functions=['ElfSectionIter (Iterator provided methods vs next)'], props=['C19']),
+    'k_builder_inforeq_twice': dict(HDR, file='builder.rs', kind='bounded', bound='two information-request tags with symbolic requests set one after the other, both architectures',
+        functions=['Builder::information_request_tag', 'Builder::build'], props=['C12']),
+    'k_mb2hdr_get_after_inner_end': dict(HDR, file='header.rs', kind='bounded', bound='48-byte header [End][EntryAddress][End], symbolic field values',
+        functions=['Multiboot2Header::get_tag', 'entry_address_tag', 'address_tag'], props=['C11']),
+})
